@@ -335,6 +335,31 @@ def main():
                                     f"a fresh one reads {t_ref} / exports {[i for _p, i in ref['export']]}", input={"history": [f"{which}() abandoned after {nbreak}", "full pass"], "hdu_index": [1, 2, 1]})
         except Exception as e:
             h.violation("history:crash", f"abandoned pass over a collection raised {type(e).__name__}: {e}", input="abandoned-pass")
+        # a consumer that normalises the parity of the descriptions it is handed (as the library's own common-grid test and multi-TAN
+        # pixelisation do): descriptions and images of the same collection still agree afterwards — same HDU, same shape, same WCS
+        try:
+            coll5 = collection.load([pa, pb, pc], hdu_index=[1, 2, 1])
+            with warnings.catch_warnings():
+                warnings.simplefilter("ignore")
+                flipped = 0
+                for dsc in coll5.descriptions():
+                    before = dsc.get_parity_sign()
+                    dsc.ensure_negative_parity()
+                    flipped += int(before != dsc.get_parity_sign())
+                dd = list(coll5.descriptions())
+                ii = list(coll5.images())
+            h.case(("history", "parity-normalising-consumer"))
+            h.count("history", "parity-normalising-consumer" + ("" if flipped else " (nothing to flip)"))
+            for k5, (dsc, img) in enumerate(zip(dd, ii)):
+                wd = np.asarray(dsc.wcs.wcs_pix2world([[0.0, 0.0], [3.0, 2.0]], 0))
+                wi = np.asarray(img.wcs.wcs_pix2world([[0.0, 0.0], [3.0, 2.0]], 0))
+                if tuple(dsc.shape) != tuple(img.shape) or dsc.get_parity_sign() != img.get_parity_sign() or not np.allclose(wd, wi, atol=1e-9):
+                    h.violation("history:consumer", f"load([a, b, c], hdu_index=[1, 2, 1]): after a pass that called ensure_negative_parity() on the descriptions it was handed, "
+                                f"description #{k5} has parity {dsc.get_parity_sign()} and puts pixel (0,0) at {wd[0].round(6).tolist()}, image #{k5} has parity {img.get_parity_sign()} and puts it at {wi[0].round(6).tolist()}",
+                                input={"history": ["descriptions() + ensure_negative_parity on each", "descriptions()", "images()"]})
+                    break
+        except Exception as e:
+            h.violation("history:crash", f"parity-normalising pass over a collection raised {type(e).__name__}: {e}", input="consumer-pass")
         # the `toasty view` command line: what reaches the tiler is the user's list of files, positionally, with the per-file
         # selections — including the same file named twice to pick two of its HDUs (the tiler itself is replaced by a recorder)
         try:
